@@ -714,6 +714,9 @@ pub fn run_c09(o: &mut Out, tier: &str, seed: u64) {
     // second round (G06): own generator stream, so that everything above is unchanged for a given seed
     let mut rng2 = Rng::new(seed ^ 0xc09_2);
     c09_requested(o, &mut rng2, tier == "thorough");
+    // third round ("cross-key amounts"): own generator stream again
+    let mut rng3 = Rng::new(seed ^ 0xc09_3);
+    c09_cross_key(o, &mut rng3, tier == "thorough");
 }
 
 /// parse `ok <k> <pos>:<i>/<j>:<x>…` into [(pos, (i, j), x)]; `None` for an `err …` / malformed result
@@ -755,10 +758,12 @@ fn prefix_targets(ver: u64, outs: &[([u8; 32], Option<u8>)], extra: Vec<u8>) -> 
 
 /// one `c09_scenario` line: operation, statistics, and the direct check x·G == the output's key for every reported output;
 /// returns the positions of the recovered outputs
-fn run_c09_scenario_line(o: &mut Out, line: String) -> Vec<usize> {
+fn run_c09_scenario_line(o: &mut Out, line: String) -> Vec<usize> { run_c09_scenario_line_got(o, line).0 }
+/// … also returns the result text of the operation
+fn run_c09_scenario_line_got(o: &mut Out, line: String) -> (Vec<usize>, String) {
     use monero::blockdata::transaction::TxOutTarget;
     let toks: Vec<&str> = line.split(' ').collect();
-    let s = match crate::c07::scenario(&toks[1..]) { Some(s) => s, None => return vec![] };
+    let s = match crate::c07::scenario(&toks[1..]) { Some(s) => s, None => return (vec![], String::new()) };
     let got = o.op(line.clone(), true);
     o.stat(if got.contains(" err ") { "c09.scenario.err" } else if got.contains(" ok 0") { "c09.scenario.none-owned" } else { "c09.scenario.owned" });
     let parts: Vec<&str> = got.split(' ').collect();
@@ -776,7 +781,32 @@ fn run_c09_scenario_line(o: &mut Out, line: String) -> Vec<usize> {
             positions.push(pos);
         }
     }
-    positions
+    (positions, got)
+}
+
+/// "Cross-key amounts" (family of c07.rs, `cross_key_cases`): transactions with a main key and additional keys in which an output's
+/// one-time key comes from one key of its position and its ecdh field / mask from the other key's derivation. The wallet owns the output
+/// through the first key and the commitment does not open under it: the scan must be `Err(InvalidCommitment)` — nothing is handed to
+/// `recover_key`; a scan that retried the opening with the other key would report the output carrying THAT key, and `recover_key` would
+/// return a scalar that does not open the one-time key on the wire (checked for whatever is reported). Controls: the same outputs not
+/// owned by the wallet / no RingCT data — the owned outputs are reported and recovered.
+fn c09_cross_key(o: &mut Out, rng: &mut Rng, thorough: bool) {
+    for c in crate::c07::cross_key_cases(rng, thorough) {
+        let line = c.line.replacen("c07_scenario", "c09_scenario", 1);
+        let toks: Vec<&str> = line.split(' ').collect();
+        let s = match crate::c07::scenario(&toks[1..]) { Some(s) => s, None => { o.notes.push(format!("cross-key: unparsable scenario {}", trunc(&line, 200))); continue; } };
+        o.stat(&format!("c09.scenario.cross-key:{}", c.kind));
+        let (positions, got) = run_c09_scenario_line_got(o, line.clone());
+        if c.trap {
+            o.direct(s.expected == "err InvalidCommitment", "c09: family invariant (cross-key amounts): the sender's description implies a failed opening", trunc(&line, 300), s.expected.clone(), "err InvalidCommitment".into());
+            o.direct(got == format!("{} err InvalidCommitment", s.line_hash) && positions.is_empty(), "c09: an owned output whose amount is encoded under the OTHER transaction key of its position: the scan is Err(InvalidCommitment), no output is reported (none with the key that happened to open)",
+                trunc(&line, 400), trunc(&got, 300), format!("{} err InvalidCommitment", s.line_hash));
+        } else {
+            let want: Vec<usize> = if s.expected.starts_with("ok ") { s.expected.split(' ').skip(2).filter_map(|e| e.split(':').next()?.parse().ok()).collect() } else { vec![] };
+            o.direct(s.expected.starts_with("ok ") && positions == want, "c09: cross-key outputs that are not the wallet's (or no RingCT data): exactly the owned outputs are reported and recovered",
+                trunc(&line, 400), trunc(&got, 300), format!("{:?}", want));
+        }
+    }
 }
 
 /// Families requested after the review (second round, G06).
